@@ -415,7 +415,17 @@ def run_standalone(recipe, cfg, cdir, scratch, logf, parse_result_file, classify
             it2 = {k: v for k, v in it.items() if k not in ("contract", "loop_invariants")}
             it2["rewrites"] = [rw for rw in it.get("rewrites", []) if rw["rule"] not in skip]
             items.append(it2)
-    harnesses = [h for h in recipe.get("harness", []) if tier == "thorough" or h.get("tier", "quick") == "quick"]
+    def _in_tier(h):
+        t = h.get("tier", "quick")
+        if tier == "experimental":
+            return True
+        if t == "experimental":
+            return False
+        return tier == "thorough" or t == "quick"
+    harnesses = [h for h in recipe.get("harness", []) if _in_tier(h)]
+    _only = os.environ.get("VERIF_ONLY_STANDALONE")
+    if _only:  # debugging aid, mirrors --only of run_check for woven harnesses
+        harnesses = [h for h in harnesses if h["name"] in set(_only.split(","))]
 
     def undecided_all(reason):
         for h in harnesses:
